@@ -4516,7 +4516,12 @@ impl<'a> Assignment<'a> {
                             ))
                         })?,
                         ArgType::String => DataValue::String(value.to_string()),
-                        _ => unreachable!("argtype should not occur"),
+                        _ => {
+                            return Err(StamError::QuerySyntaxError(
+                                format!("Unsupported value in DATA assignment: '{}'", value),
+                                "",
+                            ))
+                        }
                     }
                 };
                 Self::Data { set, key, value }
